@@ -31,3 +31,13 @@ func VerifDrain(c TraceSentCache) { c.(*cuckooSentCache).dropped.drain() }
 
 // VerifKeptLen is the number of kept decisions currently remembered.
 func VerifKeptLen(c TraceSentCache) int { return c.(*cuckooSentCache).kept.Len() }
+
+// VerifNewSentCacheMonitored is VerifNewSentCache plus the cache's own monitor goroutine
+// (needed by Resize, which hands over to a fresh monitor).
+func VerifNewSentCacheMonitored(keptSize int, met metrics.Metrics, clk clockwork.Clock) TraceSentCache {
+	c := VerifNewSentCache(keptSize, met, clk).(*cuckooSentCache)
+	c.cfg.SizeCheckInterval = config.Duration(time.Hour)
+	c.shutdownWG.Add(1)
+	go c.monitor()
+	return c
+}
